@@ -20,9 +20,15 @@ def optS (t : String) : Option (Option String) :=
 
 def parseTOp (tok : String) : Option TOp :=
   match tok.splitOn ";" with
-  | ["ks", k, v, fl] => do pure (.kvSet (← decS k) ⟨← decS v, ← nat? fl⟩)
+  | ["kl", k, v, fl, se] => do pure (.kvLock (← decS k) ⟨← decS v, ← nat? fl, 0, ← decS se⟩)
+  | ["ku", k, v, fl, se] => do pure (.kvUnlock (← decS k) ⟨← decS v, ← nat? fl, 0, ← decS se⟩)
+  | ["kcs", k, se] => do pure (.kvCheckSession (← decS k) (← decS se))
+  | ["kci", k, c] => do pure (.kvCheckIndex (← decS k) (← nat? c))
+  | ["kcn", k] => do pure (.kvCheckNotExists (← decS k))
+  | ["sdel", id] => do pure (.sessDelete (← decS id))
+  | ["ks", k, v, fl] => do pure (.kvSet (← decS k) ⟨← decS v, ← nat? fl, 0, ""⟩)
   | ["kd", k] => do pure (.kvDelete (← decS k))
-  | ["kc", k, v, fl, c] => do pure (.kvCas (← decS k) ⟨← decS v, ← nat? fl⟩ (← nat? c))
+  | ["kc", k, v, fl, c] => do pure (.kvCas (← decS k) ⟨← decS v, ← nat? fl, 0, ""⟩ (← nat? c))
   | ["kdc", k, c] => do pure (.kvDeleteCas (← decS k) (← nat? c))
   | ["ns", n, a, id] => do pure (.nodeSet ⟨← decS n, ← decS id, ← decS a⟩)
   | ["nd", n, _id] => do pure (.nodeDelete (← decS n))            -- the delete verbs ignore the ID
@@ -50,9 +56,14 @@ def parseTok (tok : String) : Option TokReq :=
 
 /-- `<cmd> <idx> args…` ↦ (raft index, command) -/
 def parseCmd : List String → Option (Nat × Cmd)
-  | ["kvset", i, k, v, fl] => do pure (← nat? i, .kvSet (← decS k) ⟨← decS v, ← nat? fl⟩)
+  | ["kvset", i, k, v, fl] => do pure (← nat? i, .kvSet (← decS k) ⟨← decS v, ← nat? fl, 0, ""⟩)
+  | ["kvlock", i, k, v, fl, se] => do pure (← nat? i, .kvLock (← decS k) ⟨← decS v, ← nat? fl, 0, ← decS se⟩)
+  | ["kvunlock", i, k, v, fl, se] => do pure (← nat? i, .kvUnlock (← decS k) ⟨← decS v, ← nat? fl, 0, ← decS se⟩)
+  | ["sesscreate", i, id, n, b] => do pure (← nat? i, .sessCreate (← decS id) (← decS n) (← decS b))
+  | ["sessdestroy", i, id] => do pure (← nat? i, .sessDestroy (← decS id))
+  | ["tokboot", i, r, t] => do pure (← nat? i, .tokBootstrap (← nat? r) (← parseTok t))
   | ["kvdel", i, k] => do pure (← nat? i, .kvDelete (← decS k))
-  | ["kvcas", i, k, v, fl, c] => do pure (← nat? i, .kvCas (← decS k) ⟨← decS v, ← nat? fl⟩ (← nat? c))
+  | ["kvcas", i, k, v, fl, c] => do pure (← nat? i, .kvCas (← decS k) ⟨← decS v, ← nat? fl, 0, ""⟩ (← nat? c))
   | ["kvdelcas", i, k, c] => do pure (← nat? i, .kvDeleteCas (← decS k) (← nat? c))
   | ["txn", i, ops] => do pure (← nat? i, .txn (← (decList ops).mapM parseTOp))
   | ["cfgset", i, kd, n, v, fl] => do pure (← nat? i, .cfgSet (← decS kd, ← decS n) ⟨← decS v, "", ← decBool fl⟩)
@@ -83,9 +94,15 @@ def errName : Err → String
   | .fgNoStatus => "fg-no-status" | .fgNoPolicy => "fg-no-policy"
   | .tokNoSecret => "tok-no-secret" | .tokNoAccessor => "tok-no-accessor"
   | .tokSecretImmutable => "tok-secret-immutable"
+  | .missingSession => "missing-session" | .invalidSession => "invalid-session"
+  | .lockHeld => "lock-held" | .lockNotHeld => "lock-not-held"
+  | .keyMissing => "key-missing" | .sessionMismatch => "session-mismatch"
+  | .indexMismatch => "index-mismatch" | .keyExists => "key-exists"
+  | .missingSessionId => "missing-session-id" | .badBehavior => "bad-behavior"
+  | .bootstrapNotAllowed => "bootstrap-not-allowed" | .bootstrapInvalidReset => "bootstrap-invalid-reset"
 
 def tresStr : TRes → String
-  | .kv k fl c m => s!"kv;{encS k};{fl};{c};{m}"
+  | .kv k fl li se c m => s!"kv;{encS k};{fl};{li};{encS se};{c};{m}"
   | .node n c m => s!"node;{encS n};{c};{m}"
   | .svc _ id c m => s!"svc;{encS id};{c};{m}"
   | .chk n id c m => s!"chk;{encS n};{encS id};{c};{m}"
@@ -106,7 +123,7 @@ def cellStr {α : Type} (f : α → String) : Cell α → String
 
 def dumpStr (s : Cas.State) : String :=
   unwords [
-    "kv=" ++ sorted (s.kvs.map fun (k, e) => s!"{encS k};{encS e.val.value};{e.val.flags};{e.create};{e.modify}"),
+    "kv=" ++ sorted (s.kvs.map fun (k, e) => s!"{encS k};{encS e.val.value};{e.val.flags};{e.val.lockIndex};{encS e.val.session};{e.create};{e.modify}"),
     "tomb=" ++ sorted (s.tombs.map fun (k, i) => s!"{encS k};{i}"),
     "node=" ++ sorted (s.nodes.map fun (_, e) => s!"{encS e.val.name};{encS e.val.id};{encS e.val.addr};{e.create};{e.modify}"),
     "svc=" ++ sorted (s.svcs.map fun (k, e) => s!"{encS k.1};{encS k.2};{e.val};{e.create};{e.modify}"),
@@ -121,6 +138,7 @@ def dumpStr (s : Cas.State) : String :=
     "fgp=" ++ cellStr (fun (v : String) => encS v) s.fgPolicy,
     "fgs=" ++ cellStr (fun v => s!"{encS v.digest};{v.policyIndex}") s.fgStatus,
     "tok=" ++ sorted (s.toks.map fun (k, e) => s!"{encS k};{encS e.val.secret};{encS e.val.desc};{e.create};{e.modify}"),
+    "sess=" ++ sorted (s.sess.map fun (k, e) => s!"{encS k};{encS e.val.node};{encS e.val.behavior};{e.create};{e.modify}"),
     "idx=" ++ sorted (s.idx.map fun (k, v) => s!"{k};{v}")
   ]
 
